@@ -252,7 +252,11 @@ pub fn render_expr(e: &Expr, f: &Fmt) -> String {
         Expr::Var(n) => n.render(),
         Expr::Neg(x) => format!("-{}", render_expr(x, f)),
         Expr::Bin { l, op, r, tight } => {
-            if *tight { format!("{}{}{}", render_expr(l, f), op, render_expr(r, f)) } else { format!("{} {} {}", render_expr(l, f), op, render_expr(r, f)) }
+            let ls = render_expr(l, f);
+            let rs = render_expr(r, f);
+            // tight spelling only between alphanumerics: "10$+5" would read "$+5" as a money literal
+            let ok = ls.chars().last().map(|c| c.is_alphanumeric()).unwrap_or(false) && rs.chars().next().map(|c| c.is_alphanumeric()).unwrap_or(false);
+            if *tight && ok { format!("{}{}{}", ls, op, rs) } else { format!("{} {} {}", ls, op, rs) }
         }
         Expr::Paren(x) => format!("({})", render_expr(x, f)),
         Expr::ToCur { e, conn, word, .. } => match conn {
